@@ -101,6 +101,13 @@ func deliverToSubscription(
 			First(ctx)
 		if err == nil {
 			createDelivery.SetNotBefore(lastDelivery)
+			// deliveries created by one operation (e.g. several messages
+			// dead-lettered by one pull) share its timestamp, and the lookup above
+			// relies on that time to find the most recent one: keep the deliveries
+			// of a key strictly ordered in time
+			if !now.After(lastDelivery.PublishedAt) {
+				createDelivery.SetPublishedAt(lastDelivery.PublishedAt.Add(time.Microsecond))
+			}
 		} else if !ent.IsNotFound(err) {
 			return nil, err
 		}
